@@ -257,6 +257,7 @@ func init() {
 		Explanation: "Decides: the queue is locked with len(queries) of the map that is iterated unmodified, each iteration releases exactly one lock on every outcome of its request (all early returns are inside the unlock task), nothing returns between locking and the end of the iteration, locks are installed only for a positive count; the request goes to the event's subject with the range key as query; answers are applied through per-iteration values, full model/collection answers only behind the matching kind test (PAIR/query-lock); no deferred closure captures a shared loop variable (DOM/loopvar); an initial load re-initialises an entry only under the not-loaded test of that same entry, so an alias arriving later cannot reset a shared resource (PAIR/version-bump); a repeated Loaded is ignored (LIN/loaded-once); Enqueue wakes no worker while locks are set (DOM/inch-send); unregister clears base / queries / links including the empty alias (DOM/unregister); every outcome of a get response collects the waiting subscribers (DOM/answer-waiting). Not decided: the capacity countdown arithmetic of the lock list; two aliasing gets in flight beyond the loaded-once guard.",
 		Assumptions: baseAssumptions,
 		Rules: []Rule{
+			{Name: "CTX/async-completion", Min: 1, Run: ruleAsyncCompletion, Doc: "the completion of a request never runs on the sender's stack (senders hold their own mutex)"},
 			{Name: "DOM/unregister", Min: 1, Run: ruleUnregister, Doc: "a removed cache entry is cleared from every index (base, queries, links)"},
 			{Name: "DOM/answer-waiting", Min: 1, Run: ruleAnswerWaiting, Doc: "every outcome of a get response collects the subscribers waiting on it"},
 			{Name: "PAIR/query-lock", Min: 1, Run: ruleQueryLock, Doc: "one lock per cached query released exactly once"},
@@ -330,6 +331,7 @@ func init() {
 		Explanation: "Decides for nats/nats.go: every path of SendRequest consumes the completion exactly once (three immediate-error goroutines or the pending entry) (LIN/sendrequest); every invocation of a request completion is preceded by the removal of its pending entry in the critical section of the lookup, a pre-response removes and completes nothing, event callbacks are invoked synchronously in publish order (PATHS/remove-before-invoke); the subject length is checked against the control-line limit before ChanSubscribe/PublishRequest; NoReconnect and the closed handler are installed, one listener goroutine; no deferred closure captures the listener's loop variable (DOM/loopvar); the only method called on a nats.go subscription is Unsubscribe — no delivery limit that a pre-response could use up (DOM/nats-plumbing). Not decided: timing of timeouts and their restart, disconnect detection by nats.go.",
 		Assumptions: append([]string{"nats.go delivers at most what was published; timerqueue fires each entry at most once"}, baseAssumptions...),
 		Rules: []Rule{
+			{Name: "CTX/async-completion", Min: 1, Run: ruleAsyncCompletion, Doc: "the completion of a request never runs on the sender's stack (senders hold their own mutex)"},
 			{Name: "LIN/sendrequest", Min: 1, Run: ruleLIN(func(t linTarget) bool { return t.name == "nats.Client.SendRequest" }), Doc: "every path of SendRequest consumes the completion exactly once"},
 			{Name: "PATHS/remove-before-invoke", Min: 1, Run: ruleNatsRemoveBeforeInvoke, Doc: "pending entry removed under the lookup's lock before the completion runs"},
 			{Name: "DOM/nats-plumbing", Min: 2, Run: ruleNatsPlumbing, Doc: "control-line guards, one listener, closed handler"},
